@@ -202,6 +202,12 @@ func getESDTNFTTokenOnSender(
 	if isNew {
 		return nil, ErrNewNFTDataOnSenderAddress
 	}
+	if nonce > 0 && esdtData.TokenMetaData == nil {
+		return nil, ErrNFTDoesNotHaveMetadata
+	}
+	if esdtData.TokenMetaData != nil && esdtData.TokenMetaData.Nonce != 0 && esdtData.TokenMetaData.Nonce != nonce {
+		return nil, ErrNFTTokenDoesNotExist
+	}
 
 	return esdtData, nil
 }
